@@ -53,8 +53,27 @@ def run_one(pid, name, patch):
                 pass
 
 
+def benign_for(pid):
+    return [('benign:' + os.path.basename(p)[:-6], p) for p in sorted(glob.glob(os.path.join(VERIF, 'selftest', 'benign', '*.patch')))]
+
+
+def run_benign(pid, name, patch):
+    """A behaviour-preserving edit (rename, logging, reordering of independent checks, helper extraction, an added rejection)
+    must leave the check silent."""
+    r = run_one(pid, name, patch)
+    if r['status'] == 'MISSED' and r.get('exit') == 0:
+        return {'mutant': name, 'status': 'silent'}
+    if r['status'] == 'detected':
+        return {'mutant': name, 'status': 'FALSE-ALARM', 'violations': r.get('violations')}
+    if r['status'] == 'MISSED':
+        return {'mutant': name, 'status': 'FALSE-ALARM', 'exit': r.get('exit'), 'tail': r.get('tail')}
+    return r
+
+
 def run(pid):
     res = []
     for name, patch in mutants_for(pid):
         res.append(run_one(pid, name, patch))
+    for name, patch in benign_for(pid):
+        res.append(run_benign(pid, name, patch))
     return res
